@@ -8,7 +8,9 @@ from catalog import ALL_KINDS, AVERAGES, C05_KINDS, C06_KINDS, IndCfg
 from streams import compositions, make_stream
 
 STYLES = ["mixed", "walk", "decimal", "mixed", "walk"]
-DEGENERATE = ["flat", "up", "down", "zero_vol", "mixed", "inside", "repeat", "inside_then_walk"]
+DEGENERATE = ["flat", "up", "down", "zero_vol", "mixed", "inside", "repeat", "inside_then_walk",
+              "flat_then_walk", "zerovol_then_walk"]
+ZEROISH = ["flat_then_walk", "zerovol_then_walk", "mixed", "walk"]
 TFS = {"S": ["S5", "S10", "S30"], "T": ["T1", "T5", "T15"], "H": ["H1", "H4"], "D": ["D1", "D2"]}
 
 
@@ -28,7 +30,7 @@ def rand_cfg(rng, kind, small=True, rv=None, tf=None, fill=False, inp=None):
     P = lambda lo=2, hi=5: rng.randint(lo, hi)  # noqa: E731
     kw = {"rv": rv if rv is not None else 4, "timeframe": tf, "fill": fill}
     if kind in ("SMA", "EMA", "RMA", "WMA"):
-        kw.update(p=P(2, 6), inp=inp or rng.choice(["close", "close", "open", "high", "low"]))
+        kw.update(p=P(2, 6), inp=inp or rng.choice(["close", "close", "open", "high", "low", "volume"]))
         if kind == "EMA" and rng.random() < 0.2:
             kw["smoothing"] = rng.choice([2.0, 3.0, 1.5])
     elif kind == "VWMA":
@@ -118,6 +120,8 @@ CHAIN_SOURCES = [
     ("SMA", {}, ""), ("EMA", {}, ""), ("WMA", {}, ""), ("RMA", {}, ""),
     ("BBANDS", {}, ".BBM"), ("MACD", {}, ".MACD"), ("ATR", {}, ""), ("TR", {}, ""),
     ("DONCHIAN", {}, ".DCM"), ("ROC", {}, ""),
+    # sources that are legitimately exactly 0 on quiet openings
+    ("ROC", {}, ""), ("MACD", {}, ".histogram"), ("TR", {}, ""), ("OBV", {}, ""), ("TSI", {}, ""),
 ]
 
 
@@ -132,8 +136,9 @@ def fam_chain(rng, pid, count, targets=("SMA", "EMA", "RMA", "WMA", "HMA"), reve
         tgt.extra = {"name_suffix": "late"}   # keep clear of the source's default-named helpers (C13's topic)
         sc = hex_scenario(rng, f"{pid}/chain{'R' if reverse else ''}/{skind}>{tgt.kind}/{t}", "chain",
                           [tgt, src] if reverse else [src, tgt],
-                          rng.randint(16, 24), rng.choice(["mixed", "walk", "decimal"]), twins=twins,
-                          tf=None)
+                          rng.randint(16, 24),
+                          rng.choice(["mixed", "walk", "decimal", "flat_then_walk", "zerovol_then_walk"]),
+                          twins=twins, tf=None)
         if reverse:
             # the consumer is calculated before its source: what it then shows is not a property's
             # business, only that it never changes afterwards (C02)
@@ -203,7 +208,9 @@ def scenarios(pid, tier, rng):
     k = (lambda a, b: a if q else b)
     if pid == "C04":
         av = sorted(AVERAGES)
-        return fam_kinds(rng, pid, av, k(150, 900), rvs=(4, 4, 2, 0, 5, 3, 8)) + fam_chain(rng, pid, k(80, 500))
+        return (fam_kinds(rng, pid, av, k(110, 700), rvs=(4, 4, 2, 0, 5, 3, 8))
+                + fam_kinds(rng, pid + "z", av, k(60, 400), styles=ZEROISH, rvs=(4, 0, 0, 1, 2))
+                + fam_chain(rng, pid, k(80, 500)))
     if pid == "C05":
         return fam_kinds(rng, pid, sorted(C05_KINDS), k(240, 1500))
     if pid == "C06":
@@ -442,6 +449,14 @@ def fam_interference(rng, pid, count):
             if rng.random() < 0.3:
                 cfgs += _uniq(cfgs + [rand_cfg(rng, rng.choice(SIMPLE))])[len(cfgs):]
         n = rng.randint(24, 30)
+        tf = None
+        if t % 3 == 1:
+            # the members share a collapsing timeframe (one candle manager); one of them carries its
+            # own timeframe_fill flag, which inside a Hexital must not shape the shared candles
+            tf = pick_tf(rng)
+            cfgs = [c.clone(timeframe=tf) for c in cfgs]
+            flagged = rng.randrange(len(cfgs))
+            cfgs[flagged].extra = dict(cfgs[flagged].extra, timeframe_fill=True)
         names = [c.build(standalone=False).name for c in cfgs]
         pre, chunks = compositions(rng, n - 6, (0, 2, 5), 5)
         prog = prog_for(pre, chunks)
@@ -456,11 +471,11 @@ def fam_interference(rng, pid, count):
             prog.append(("remove", victim))
         prog.append(("append", a + 1, n))
         out.append({"id": f"{pid}/pair/{'+'.join(names)}/{t}", "fam": "interf", "obj": "hex", "inds": cfgs,
-                    "hex": {}, "stream": make_stream(rng, n, "mixed"), "prog": prog,
+                    "hex": {}, "stream": make_stream(rng, n, "mixed", tf=tf), "prog": prog,
                     "twins": ["alone", "reorder"] if not removed else ["alone"],
                     "member_forms": ["obj"] * len(cfgs),
-                    "clause_props": {"exc": ["C13"], "alone": ["C13"], "reorder": ["C13"],
-                                     "interfere": ["C13"], "value": ["C13"], "gap": ["C13"]}})
+                    "clause_props": {"exc": ["C13"], "alone": ["C13"], "reorder": ["C13"], "stage": ["C13"],
+                                     "def": ["C13"], "interfere": ["C13"], "value": ["C13"], "gap": ["C13"]}})
     return out
 
 
